@@ -38,7 +38,7 @@
    of linearizability ([c02_holds]). *)
 
 From Coq Require Import List String Bool.
-From Gogu Require Import Base Lock Lin Atomic CsShape C02_Model C02_Proofs.
+From Gogu Require Import Base Lock Lin Atomic CsShape C02_Model C02_Proofs C02_Proofs2.
 From Gogu Require C05_Model C06_Model.
 From GoguGen Require Import Skeletons.
 Import ListNotations.
@@ -230,6 +230,22 @@ Theorem C02_judge_decides_linearizability :
     (search step fuel s calls tail tail_obs = true <-> linearization step s calls tail tail_obs).
 Proof. exact (fun St => @search_spec St). Qed.
 Print Assumptions C02_judge_decides_linearizability.
+
+(* the other half of the correspondence: what [c02_agree] replays on the observed event order
+   ([C02_Model.ev_run], the core of [atomic_run]) is an execution of Lin.v's atomic-commit system —
+   so the prediction the implementation is compared with has, by (C), a linearization: the calls
+   in commit order, run one at a time from the initial state, produce exactly the committed
+   results and the state in which the tail calls are then evaluated *)
+Theorem C02_replay_is_atomic_commit_execution :
+  forall (St : Type) (step : St -> opr -> St * resr) (s0 : St) prog es s ts,
+    ev_run step (s0, map (fun p => mkT p None None []) prog) es = Some (s, ts) ->
+    exists les st,
+      Lin.erun St opr resr step resr_eqb (Lin.init_st St opr resr s0) les = Some st /\
+      List.length les = List.length es /\
+      Lin.sigma St opr resr st = s /\
+      Lin.replay St opr resr step s0 (Lin.lin_calls St opr resr st) = (s, Lin.lin_results St opr resr st).
+Proof. exact (fun St => @replay_is_atomic_commit_execution St). Qed.
+Print Assumptions C02_replay_is_atomic_commit_execution.
 
 (* ---- non-vacuity: a slice stack whose Pop is two micro-steps (read the top under the lock,
         then truncate), its critical sections computing the machine's step; and a concrete
